@@ -396,7 +396,8 @@ pub fn imp_lexop(op: &str, buf: &[u8], pos: usize, arg: &str) -> String {
 pub fn imp_class(x: u8) -> String {
     guard(|| {
         // white-space / delimiter through the public lexer: `a x b`
-        let probe = [b'a', x, b'b'];
+        // (`c` on a second line: a comment started by x runs to the end of the line)
+        let probe = [b'a', x, b'b', b'\n', b'c'];
         let mut lx = Lexer::new(&probe);
         let first = lx.next().ok().map(|s| range_of(&s));
         let second = lx.next().ok().map(|s| range_of(&s));
@@ -920,7 +921,7 @@ fn lexops_stream(driver: &Driver, seed: u64, n: u64) -> Stream {
             2 | 3 => format!("c03.expect {} {} {}", h, pos, hex(*rng.pick(&[&b"obj"[..], b"endobj", b"endstream", b"R"]))),
             4 => format!("c03.nextstream {} {}", h, pos),
             5 => {
-                let n = match rng.below(6) { 0 => rem, 1 => rem + 1, 2 => rem.saturating_sub(1), 3 => rng.usize(4), 4 => *rng.pick(&[usize::MAX, usize::MAX - pos, usize::MAX - pos + 1, 50]), _ => rng.usize(60) };
+                let n = match rng.below(6) { 0 => rem, 1 => rem + 1, 2 => rem.saturating_sub(1), 3 => rng.usize(4), 4 => *rng.pick(&[usize::MAX, usize::MAX - pos, (usize::MAX - pos).wrapping_add(1), 50]), _ => rng.usize(60) };
                 format!("c03.readn {} {} {}", h, pos, n)
             }
             6 => {
@@ -928,7 +929,7 @@ fn lexops_stream(driver: &Driver, seed: u64, n: u64) -> Stream {
                 format!("c03.setpos {} {} {}", h, pos, w)
             }
             _ => {
-                let o = match rng.below(5) { 0 => rem, 1 => rem + 1 + rng.usize(5), 2 => *rng.pick(&[usize::MAX, usize::MAX - pos, usize::MAX - pos + 1]), 3 => 0, _ => rng.usize(rem + 1) };
+                let o = match rng.below(5) { 0 => rem, 1 => rem + 1 + rng.usize(5), 2 => *rng.pick(&[usize::MAX, usize::MAX - pos, (usize::MAX - pos).wrapping_add(1)]), 3 => 0, _ => rng.usize(rem + 1) };
                 format!("c03.offsetpos {} {} {}", h, pos, o)
             }
         };
@@ -1274,7 +1275,7 @@ fn parse_streams(driver: &Driver, seed: u64, from: u64, to: u64, render_st: &mut
             let key = format!("{} {}", p.pmode, hex(&p.buf));
             or.case(&key, true, || json!({"mode": p.pmode, "value": show_val(&p.c.value), "text": String::from_utf8_lossy(&p.c.text), "got": got.text}));
             if let Some((sig, what)) = check_denotes(&p.c.value, exp_id, exp_cursor, &got, &p.buf, p.off, &p.c.stats.forms, p.pmode) {
-                or.fail(&sig, &what, json!({"stream": "c03.parse", "seed": seed, "case": case, "mode": p.pmode, "value": show_val(&p.c.value), "tape": show_tape(&p.c.tape),
+                fail_limited(&mut or, &sig, &what, json!({"stream": "c03.parse", "seed": seed, "case": case, "mode": p.pmode, "value": show_val(&p.c.value), "tape": show_tape(&p.c.tape),
                     "tail": hex(&p.c.tail), "buffer": hex(&p.buf), "pos": p.pos, "flags": p.flags, "file_offset": p.off, "lens": show_lens(&p.c.lens),
                     "expected": format!("{} cursor {:?}", show_canon(&p.c.value), exp_cursor), "got": got.text, "text": String::from_utf8_lossy(&p.buf)}));
             }
@@ -1341,7 +1342,7 @@ fn seq_streams(driver: &Driver, seed: u64, from: u64, to: u64, render_st: &mut S
         let r = run_sequence(&buf, start, &vs, &c.spans, &c.stats.forms, &mut preqs, &mut pimps);
         or.case(&hex(&buf), true, || json!({"values": show_val(&c.value), "text": String::from_utf8_lossy(&c.text)}));
         if let Some((sig, what)) = r {
-            or.fail(&sig, &what, json!({"stream": "c03.seq", "seed": seed, "case": case, "value": show_val(&c.value), "tape": show_tape(&c.tape), "tail": hex(&c.tail),
+            fail_limited(&mut or, &sig, &what, json!({"stream": "c03.seq", "seed": seed, "case": case, "value": show_val(&c.value), "tape": show_tape(&c.tape), "tail": hex(&c.tail),
                 "buffer": hex(&buf), "pos": start, "expected": format!("{} ends {:?}", show_canon(&c.value), c.spans.iter().map(|s| s.1 + start).collect::<Vec<_>>()), "got": pimps.last().cloned().unwrap_or_default(),
                 "text": String::from_utf8_lossy(&buf)}));
         }
@@ -1484,7 +1485,7 @@ fn denotes_witnesses() -> Vec<Wit> {
         w("continuation then raw CR", b"(a\\\n\rb)", s(b"a\nb")),
         w("NUL inside a hex string", b"<4\x001>", s(b"\x41")),
         Wit { name: "comment between dictionary and stream keyword", buf: b"1 0 obj << /Length 3 >> % c\nstream\nabc\nendstream endobj", mode: "ind0",
-              exp: vec![Val::StreamPending(vec![(b"Length".to_vec(), Val::Int(3))], b"abc".to_vec())], ends: vec![54] },
+              exp: vec![Val::StreamPending(vec![(b"Length".to_vec(), Val::Int(3))], b"abc".to_vec())], ends: vec![55] },
         w("#20 in a key", b"<< /A#20B 1 >>", Val::Dict(vec![(b"A B".to_vec(), Val::Int(1))])),
         w("integer at the end of the buffer", b"5", Val::Int(5)),
         w("integers before a reference", b"[1 2 3 0 R]", Val::Arr(vec![Val::Int(1), Val::Int(2), Val::Ref(3, 0)])),
@@ -1569,31 +1570,44 @@ pub fn run(driver: &Driver, seed: u64, thorough: bool, replay: Option<&Value>) -
 
     rep.streams.extend(class_streams(driver));
     rep.streams.extend(word_streams(driver, thorough));
-    rep.streams.push(lexops_stream(driver, seed, 6000 * k));
-    rep.streams.extend(tok_streams(driver, seed, 4000 * k));
-    rep.streams.push(utf8_stream(driver, seed, 6000 * k));
+    rep.streams.push(lexops_stream(driver, seed, 20000 * k));
+    rep.streams.extend(tok_streams(driver, seed, 10000 * k));
+    rep.streams.push(utf8_stream(driver, seed, 20000 * k));
     rep.streams.push(floattext_stream(driver, if thorough { 6 } else { 4 }));
     rep.notes.push("c03.floattext validates an ASSUMPTION of the model, not a theorem: `Env.parseReal` (= str::parse::<f32>, std code outside the model) accepts exactly the texts `validFloatText` accepts among all texts over `+-.0123456789` up to the stated length".into());
-    rep.streams.extend(str_streams(driver, seed, 0, 4000 * k, 2000 * k, &mut den));
-    let (sts, or) = parse_streams(driver, seed, 0, 6000 * k, &mut render_st);
+    rep.streams.extend(str_streams(driver, seed, 0, 15000 * k, 6000 * k, &mut den));
+    let (sts, or) = parse_streams(driver, seed, 0, 25000 * k, &mut render_st);
     rep.streams.extend(sts);
     merge_oracle(&mut den, or);
-    let (st, or) = seq_streams(driver, seed, 0, 2500 * k, &mut render_st);
+    let (st, or) = seq_streams(driver, seed, 0, 8000 * k, &mut render_st);
     rep.streams.push(st);
     merge_oracle(&mut sq, or);
     rep.streams.push(render_st);
-    rep.streams.push(mutated_stream(driver, seed, 3000 * k));
+    rep.streams.push(mutated_stream(driver, seed, 10000 * k));
     rep.notes.push("the cursor of `parse_stream` (mode stm) cannot be observed through the public API: value only".into());
     rep.oracles.push(den);
     rep.oracles.push(sq);
     rep
 }
 
+/// records a failure; the signature of the open finding is recorded a few times only (it would fill the
+/// list and hide other failures), the rest is counted
+pub fn fail_limited(or: &mut Oracle, sig: &str, what: &str, replay: Value) {
+    or.count(&format!("failure={}", sig));
+    if sig == "name-not-utf8" && or.failures.iter().filter(|f| f["signature"] == "name-not-utf8").count() >= 4 {
+        return;
+    }
+    or.fail(sig, what, replay);
+}
+
 /// folds the counters of `b` into `a` (same oracle computed in parts)
 pub fn merge_oracle(a: &mut Oracle, b: Oracle) {
     a.cases += b.cases;
     a.distinct_nontrivial += b.distinct_nontrivial;
-    for f in b.failures { if a.failures.len() < 50 { a.failures.push(f); } }
+    for f in b.failures {
+        let known = f["signature"] == "name-not-utf8" && a.failures.iter().filter(|g| g["signature"] == "name-not-utf8").count() >= 4;
+        if a.failures.len() < 50 && !known { a.failures.push(f); }
+    }
     for s in b.samples { if a.samples.len() < 6 { a.samples.push(s); } }
     for (k, v) in b.histogram { *a.histogram.entry(k).or_insert(0) += v; }
 }
